@@ -49,27 +49,40 @@ Theorem C07_atom_line_reads_back : forall w p v,
   lex_as (render_atom w p false false v) (KAtom (av_label v, dn p (av_x v), dn p (av_y v), dn p (av_z v))).
 Proof. exact lex_atom_line. Qed.
 
-(** xyz+ (default atom / ghost formats), for every molecule and either unit: the xyz+ line filter applied to the
-    lines rendered by the xyz+ writer returns the written labels ("@" ghosts), printed coordinates, total charge and
-    multiplicity and the unit the count line announces.  Level of lines: the step from characters to lines
-    (proved for psi4 in C07_roundtrip_psi4) is not repeated for xyz+. *)
-Theorem C07_roundtrip_xyzplus_lines : forall cfg m ls kw w r,
+(** xyz+ (default atom / ghost formats), on characters, for EVERY molecule the format can carry (any number of
+    atoms, "@" ghosts, any total charge / multiplicity), either unit, any width and precision: parsing the text the
+    writer produces returns the written labels, printed coordinates, total charge and multiplicity and the unit the
+    count line announces.  [xyzp_fits]: labels pass [label_ok], multiplicity within int()'s digits; [name_ok]: the
+    title is a non-empty word without newline / "#" that does not end in a blank. *)
+Theorem C07_roundtrip_xyzplus : forall cfg m text kw w r,
   s_lower (w_dtype cfg) = "xyz+"%string -> w_afmt cfg = None -> w_gfmt cfg = None ->
-  to_lines cfg m = Ok (ls, kw) -> unit_word_xyz (units_of e_xyzp cfg) = Some (w, r) -> xyzp_fits cfg m ->
+  to_string_model cfg m = Ok (text, kw) -> unit_word_xyz (units_of e_xyzp cfg) = Some (w, r) ->
+  xyzp_fits cfg m -> name_ok (mol_name m) ->
   exists atoms,
     atoms_formatter "{elem}" "@{elem}" (factor_of e_xyzp cfg m) (m_atoms m) = Ok atoms
-    /\ parse_xyz_lines false (map (rl cfg) ls)
-       = Ok (result_xyz r (Some (dz (m_chg m), m_mult m)) (map (atomd_of (w_prec cfg)) atoms)).
-Proof. exact roundtrip_xyzplus_lines. Qed.
+    /\ parse "xyz+" text = Ok (result_xyz r (Some (dz (m_chg m), m_mult m)) (map (atomd_of (w_prec cfg)) atoms)).
+Proof. exact roundtrip_xyzplus. Qed.
+
+(** strict xyz, on characters, for every molecule it can carry (real atoms under plain symbols, written in
+    Angstrom): elements and printed coordinates come back; the title line (charge, multiplicity, name) is ignored
+    by the strict reader, as documented. *)
+Theorem C07_roundtrip_xyz : forall cfg m text kw,
+  s_lower (w_dtype cfg) = "xyz"%string -> w_afmt cfg = None -> w_gfmt cfg = None ->
+  to_string_model cfg m = Ok (text, kw) -> unit_word_xyz (units_of e_xyz cfg) = Some ("", "Angstrom")%string ->
+  xyz_fits cfg m ->
+  exists atoms,
+    atoms_formatter "{elem}" "@{elem}" (factor_of e_xyz cfg m) (m_atoms m) = Ok atoms
+    /\ parse "xyz" text = Ok (result_xyz "Angstrom" None (map (atomd_of (w_prec cfg)) atoms)).
+Proof. exact roundtrip_xyz. Qed.
 
 (** the xyz+ and strict xyz line filters on ANY lines the recognisers accept, any number of atom lines *)
-Theorem C07_roundtrip_xyzplus_partial : forall l0 l1 ls uo q ms mu atoms,
+Theorem C07_xyzplus_reader_on_lines : forall l0 l1 ls uo q ms mu atoms,
   xyz1_match l0 = Some uo -> xyz2_match l1 = Some (q, ms) -> py_int ms = Ok mu ->
   Forall2 (fun l at_ => atom_match is_nucleus l = Some at_) ls atoms ->
   parse_xyz_lines false (l0 :: l1 :: ls)
   = Ok (result_xyz (match uo with Some u => u | None => "Angstrom"%string end) (Some (q, mu)) atoms).
 Proof. exact xyzplus_lines. Qed.
-Theorem C07_roundtrip_xyz_partial : forall l0 l1 ls atoms,
+Theorem C07_xyz_reader_on_lines : forall l0 l1 ls atoms,
   all_digits l0 = true ->
   Forall2 (fun l at_ => atom_match is_simple_nucleus l = Some at_) ls atoms ->
   parse_xyz_lines true (l0 :: l1 :: ls) = Ok (result_xyz "Angstrom" None atoms).
@@ -212,9 +225,10 @@ Print Assumptions C07_roundtrip_psi4.
 Print Assumptions C07_psi4_reader_on_fragment_blocks.
 Print Assumptions C07_number_reads_back.
 Print Assumptions C07_atom_line_reads_back.
-Print Assumptions C07_roundtrip_xyzplus_lines.
-Print Assumptions C07_roundtrip_xyzplus_partial.
-Print Assumptions C07_roundtrip_xyz_partial.
+Print Assumptions C07_roundtrip_xyzplus.
+Print Assumptions C07_roundtrip_xyz.
+Print Assumptions C07_xyzplus_reader_on_lines.
+Print Assumptions C07_xyz_reader_on_lines.
 Print Assumptions C07_total.
 Print Assumptions C07_total_short.
 Print Assumptions C07_total_refuted.
